@@ -768,6 +768,7 @@ bool qlisttbl_getnext(qlisttbl_t *tbl, qlisttbl_obj_t *obj, const char *name,
     uint32_t hash = (name != NULL) ? qhashmurmur3_32(name, strlen(name)) : 0;
 
     bool ret = false;
+    bool nomem = false;
     while (cont != NULL) {
         if (name == NULL || tbl->namematch(cont, name, hash) == true) {
             if (newmem == true) {
@@ -778,7 +779,7 @@ bool qlisttbl_getnext(qlisttbl_t *tbl, qlisttbl_obj_t *obj, const char *name,
                     if (obj->data != NULL) free(obj->data);
                     obj->name = NULL;
                     obj->data = NULL;
-                    errno = ENOMEM;
+                    nomem = true;
                     break;
                 }
                 memcpy(obj->data, cont->data, cont->size);
@@ -799,8 +800,8 @@ bool qlisttbl_getnext(qlisttbl_t *tbl, qlisttbl_obj_t *obj, const char *name,
     }
     qlisttbl_unlock(tbl);
 
-    if (ret == false && errno != ENOMEM) {
-        errno = ENOENT;
+    if (ret == false) {
+        errno = (nomem == true) ? ENOMEM : ENOENT;
     }
 
     return ret;
